@@ -2,6 +2,7 @@ package gen
 
 import (
 	"github.com/valyala/fastjson"
+	"reflect"
 
 	ap "github.com/go-ap/activitypub"
 
@@ -30,7 +31,33 @@ func WithHooks(t *core.Tape) (restore func(), on bool) {
 	ap.JSONItemUnmarshal = func(typ ap.ActivityVocabularyType, val *fastjson.Value, it ap.Item) error {
 		return ap.OnObject(it, func(ob *ap.Object) error { return ap.JSONLoadObject(val, ob) })
 	}
+	// the application has extended (and trimmed again) some of the exported lists of the vocabulary:
+	// same contents, but with spare capacity behind them, as after any append
+	type saved struct {
+		p   reflect.Value
+		old reflect.Value
+	}
+	var lists []saved
+	if t.Bool(1, 2) {
+		g := ap.VerifGlobals()
+		for _, name := range core.SortedKeys(g) {
+			pv := reflect.ValueOf(g[name])
+			if pv.Kind() != reflect.Pointer || pv.Elem().Kind() != reflect.Slice || pv.Elem().Len() == 0 || !pv.Elem().CanSet() {
+				continue
+			}
+			if k := pv.Elem().Type().Elem().Kind(); k != reflect.String {
+				continue
+			}
+			old := reflect.ValueOf(pv.Elem().Interface())
+			grown := reflect.Append(pv.Elem(), reflect.Zero(pv.Elem().Type().Elem()))
+			pv.Elem().Set(grown.Slice(0, old.Len()))
+			lists = append(lists, saved{pv, old})
+		}
+	}
 	return func() {
 		ap.ItemTyperFunc, ap.JSONItemUnmarshal, ap.IsNotEmpty, ap.DefaultLang = oldTyper, oldUnm, oldNE, oldLang
+		for _, l := range lists {
+			l.p.Elem().Set(l.old)
+		}
 	}, true
 }
